@@ -53,6 +53,25 @@ def render() -> str:
     if n_ruff == 0 or n_ruff != n_nocache:
         raise TranslatorError(f"core/postprocess_manager.py: {n_ruff} ruff invocations but {n_nocache} '--no-cache' "
                               "arguments (the model assumes post-processing creates no cache directory)")
+    # run() must hand ruff the *.py FILES of the list it was given, never directories
+    run = None
+    for n in ast.walk(ppm):
+        if isinstance(n, ast.FunctionDef) and n.name == "run":
+            run = n
+    if run is None:
+        raise TranslatorError("core/postprocess_manager.py: PostprocessManager.run not found")
+    pf = [n for n in ast.walk(run) if isinstance(n, ast.Assign) and any(isinstance(t_, ast.Name) and t_.id == "python_files"
+                                                                       for t_ in n.targets)]
+    if len(pf) != 1 or not isinstance(pf[0].value, ast.ListComp):
+        raise TranslatorError("core/postprocess_manager.py: run() no longer builds `python_files` with one list comprehension")
+    cond = " and ".join(ast.unparse(c) for g_ in pf[0].value.generators for c in g_.ifs)
+    if "is_file()" not in cond or "suffix == '.py'" not in cond or ast.unparse(pf[0].value.generators[0].iter) != "target_paths":
+        raise TranslatorError("core/postprocess_manager.py: `python_files` is not the *.py files of target_paths")
+    for meth in ("remove_unused_imports_bulk", "sort_imports_bulk", "format_code_bulk"):
+        calls = [n for n in ast.walk(run) if isinstance(n, ast.Call) and isinstance(n.func, ast.Attribute) and n.func.attr == meth]
+        if len(calls) != 1 or len(calls[0].args) != 1 or ast.unparse(calls[0].args[0]) != "python_files":
+            raise TranslatorError(f"core/postprocess_manager.py: run() does not call {meth}(python_files) exactly once "
+                                  "(the model gives ruff the generated *.py files, never a directory)")
     gm = None
     for n in ast.walk(_parse("emitters/models_emitter.py")):
         if isinstance(n, ast.FunctionDef) and n.name == "_generate_model_file":
